@@ -1,6 +1,7 @@
 """C07 — Variant keeps the last assigned value with independent lazy copies."""
 import re
 from .. import q, fin
+from ..facts import AnalysisBroken
 from .. import refcount as R
 from . import c04_alias
 from .. import containers as C
@@ -135,6 +136,7 @@ def run(prog, chk):
     chk.extra["explanation"] = EXPLANATION
     scalar_tags(prog, chk, "C07.g")
     type_queries_by_tag(prog, chk, "C07.j")
+    inline_descriptor_uncounted(prog, chk, "C07.k")
     R.tag_casts(prog, chk, "C07.a", ("Variant",), floor=15)
     R.exclusive_guard(prog, chk, "C07.b", ("Variant",), floor=8)
     R.clone_into_fresh(prog, chk, "C07.c", ("Variant",), floor=8)
@@ -179,3 +181,47 @@ def type_queries_by_tag(prog, chk, rid):
             chk.ok(rid, f, "%s() decided by the tag for every tag" % f.short, "%s:%s" % (f.file, f.line), "evaluation over the tag values", evals=11)
     if n < 2:
         raise AnalysisBroken("Variant::isNull / getType not found")
+
+
+def inline_descriptor_uncounted(prog, chk, rid):
+    """copies tell a shared heap block from the inline descriptor by `ref`: non-zero means "share the block".  Whenever a Variant
+    switches to its inline descriptor `_data`, ref has to be written as 0 along with the type - `_data` holds whatever the storage
+    contained when the Variant was born as a string / list / map, and a copy of such a Variant would otherwise point INTO the original."""
+    chk.rule(rid, "PAIRF: every path through a store `data = &_data` (or the constructor initialiser data(&_data)) also writes `_data.ref` with "
+                  "0 - by `_data.ref = 0`, or by assigning the whole descriptor from a block known uncounted (`ref` tested false)", floor=12)
+    n = 0
+    for f in sorted([f for f in prog.functions.values() if (f.clsq or "") == "Variant" and f.blocks], key=lambda g: g.sig):
+        sites = [(s_.node, f.node_pos(s_.node)) for s_ in q.stores(f) if q.no_casts(f.r(s_.lhs)) == "this->data" and s_.rhs is not None and
+                 q.no_casts(f.r(s_.rhs)) == "&this->_data" and s_.node is not None and f.node_pos(s_.node) is not None]
+        for ini in f.d.get("inits", []) or []:
+            if ini.get("field") == "data" and "_data" in q.no_casts(f.r(ini["e"])) and q.no_casts(f.r(ini["e"])).startswith("&"):
+                sites.append((None, f.entry_pos()))
+        if not sites:
+            continue
+        zero = [s_.node for s_ in q.stores(f) if q.no_casts(f.r(s_.lhs)) == "this->_data.ref" and s_.rhs is not None and fin.eval_expr(f, s_.rhs, {}) == 0]
+        whole = []
+        for i, nd in enumerate(f.nodes):
+            if nd["k"] in ("CXXOperatorCallExpr", "BinaryOperator") and (nd.get("oop") or nd.get("op")) == "=" and f.node_pos(i) is not None:
+                lhs = nd["c"][1] if nd["k"] == "CXXOperatorCallExpr" and len(nd["c"]) == 3 else nd["c"][0] if nd["c"] else None
+                if lhs is None or q.no_casts(f.r(lhs)) != "this->_data":
+                    continue
+                at = fin.dominating_atoms(f, f.node_pos(i))
+                if any(a[0] != "case" and not a[1] and re.search(r"->ref$", fin.key(f, a[0])) for a in at) or \
+                   any(a[0] != "case" and fin.null_test(f, a[0]) is not None and re.search(r"->ref$", fin.null_test(f, a[0])[0]) and
+                       (fin.null_test(f, a[0])[1] == 0) == bool(a[1]) for a in at):
+                    whole.append(i)
+        W = q.pos_of(f, zero + whole)
+        for node, pos in sites:
+            n += 1
+            through_entry = node is None
+            ok = bool(W) and (f.find_path(f.entry_pos(), {f.exit_pos()}, avoid=W, after_src=False) is None if through_entry else C.paths_all_pass(f, pos, W))
+            where = f.where(node) if node is not None else "%s:%s" % (f.file, f.line)
+            if ok:
+                chk.ok(rid, f, "switch to the inline descriptor writes ref = 0", where, "%d zero store(s), %d whole-descriptor copy(ies) from an uncounted block" % (len(zero), len(whole)), evals=len(W) + 1)
+            else:
+                chk.bad(rid, f, "inline-descriptor-ref-not-reset", where,
+                        "%s makes `data` point at the inline descriptor on a path that does not write `_data.ref = 0`: `_data` still holds what the "
+                        "storage contained (a Variant born as string/list/map never initialised it), a non-zero ref makes the next copy share - i.e. "
+                        "point into - this Variant instead of taking its own value" % f.name, evals=len(W) + 1)
+    if n < 12:
+        raise AnalysisBroken("C07.k: only %d switches to the inline descriptor found in Variant" % n)
